@@ -348,8 +348,10 @@ def _canon_cmp(op, a, b):
     return ("cmp", op, a, b)
 
 
-def assigned_names(stmts):
-    """Names bound by statements (not descending into nested function / class / lambda / comprehension scopes)."""
+def assigned_names(stmts, binding_only=False):
+    """Names bound by statements (not descending into nested function / class / lambda / comprehension scopes).  In-place method / library
+    calls on a name (``x.append(..)``, ``np.fill_diagonal(x, ..)``) count as rebinding it to its new value, unless ``binding_only``: they do not
+    make the name a local of the scope (``_cache.popitem()`` on a module-level dictionary refers to the module's object)."""
     out = []
 
     def tgt(t):
@@ -391,6 +393,8 @@ def assigned_names(stmts):
             tgt(n.target)
         elif isinstance(n, (getattr(ast, "MatchAs", ()), getattr(ast, "MatchStar", ()))) and getattr(n, "name", None):
             out.append(n.name)
+        elif binding_only and isinstance(n, ast.Expr):
+            pass
         elif isinstance(n, ast.Expr) and isinstance(n.value, ast.Call) and isinstance(n.value.func, ast.Attribute) \
                 and isinstance(n.value.func.value, ast.Name) and n.value.func.attr in MUTATORS \
                 and not (n.value.func.attr == "setdefault" and len(n.value.args) == 2 and not n.value.keywords):      # read as a guarded item store (s_Expr)
@@ -626,7 +630,7 @@ class Evaluator:
             finally:
                 self.scopes.pop()
         else:
-            self.scopes.append({"locals": names | set(assigned_names(body_stmts)) - global_decls(body_stmts),
+            self.scopes.append({"locals": names | set(assigned_names(body_stmts, binding_only=True)) - global_decls(body_stmts),
                                 "globals": global_decls(body_stmts)})
             try:
                 _, tree = self.block(body_stmts, inner, ictx)
@@ -1584,7 +1588,7 @@ def summarize(program: Program, f: FuncInfo, tag: str = "") -> Summary:
         env[p[0]] = ("param", p[0])
     body = node.body if isinstance(node.body, list) else [ast.Return(value=node.body, lineno=node.lineno, col_offset=0)]
     gl = global_decls(body)
-    ev.scopes.append({"locals": ({p[0] for p in params} | set(assigned_names(body))) - gl, "globals": gl})
+    ev.scopes.append({"locals": ({p[0] for p in params} | set(assigned_names(body, binding_only=True))) - gl, "globals": gl})
     env_out, tree = ev.block(body, env, ctx)
     ret = tree_to_term(tree)
     return Summary(f, params, tree, ret, ev.events, ev.loops, env_out, ev.unbound, contains_yield(node))
